@@ -137,6 +137,18 @@ func parseLayerB(t *gen.Tools, sw *sweeper, r *ev.Run, prop, tier string, cands 
 		budget = 500
 	}
 	sel := selectSyn(cands, func(rec *synRec) *GenOut { return rec.Plain }, budget)
+	// always with them: the hand-written seeds with five or more terminals (states that expect many tokens at once)
+	inSel := map[*synRec]bool{}
+	for _, rec := range sel {
+		inSel[rec] = true
+	}
+	extra := 0
+	for _, rec := range cands {
+		if rec.Fam == "S2" && !inSel[rec] && len(rec.G.Terminals()) >= 5 && extra < 8 {
+			sel = append(sel, rec)
+			extra++
+		}
+	}
 	runParseTask(t, sw, r, prop, tier, "lr1", sel, nil)
 }
 
